@@ -83,6 +83,16 @@ def run(ctx):
                     set(row["not_decided_by_the_canonicaliser"]) <= {k.get("contribution"), "A_total"}:
                 return e
         return None
+    def known_f64(name, fails):
+        """plain-f64 cases: an open finding covers the pair only if it lists it AND at every reported failing state the named
+        contributions that differ are among those the finding names (a difference elsewhere is still a violation)"""
+        for e in known:
+            k = e.get("key", {})
+            if name in k.get("pairs_f64", []) and all(
+                    f.get("differing_contributions") and set(f["differing_contributions"]) <= set(k.get("contributions", []))
+                    for f in fails):
+                return e
+        return None
     for p in impl["cases"]:
         name = p["name"]
         tol = TOL.get(name, TOL_ITERATIVE if ("water_methanol" in name or "assoc" in name) else TOL_DEFAULT)
@@ -93,8 +103,12 @@ def run(ctx):
         if p.get("oracle_only"):
             # quick tier, large programs: plain f64 comparison at the sampled states only (the thorough tier regenerates them)
             oracle_only.append(name)
-            if f64_fail:
-                V.violation(ctx, "%s: the two implementations differ in plain f64 at %s" % (name, f64_fail[0].get("state_a")),
+            if f64_fail and known_f64(name, f64_fail):
+                V.report_known(ctx, known_f64(name, f64_fail))
+                known_hits.append(name)
+            elif f64_fail:
+                V.violation(ctx, "%s: the two implementations differ in plain f64 at %s (contributions that differ: %s)"
+                            % (name, f64_fail[0].get("state_a"), f64_fail[0].get("differing_contributions")),
                             {"broken": "oracle", "pair": name, "failing": f64_fail}, found_input=True)
             continue
         r = res[os.path.join(ctx.gen, name + ".v")]
